@@ -283,6 +283,38 @@ inline OrangeInput zoo_g6()
     return zoo_build(UnitProto{std::move(inp)});
 }
 
+// G7: curved surfaces whose axis is NOT z (every other builtin / bundled cylinder or cone is
+// z-aligned or generically tilted): the simplifier turns quarter-turn placements into the
+// axis-aligned types cx (off-centre x cylinder), cy, cyc / cxc (centred), kx and ky (cones)
+inline OrangeInput zoo_g7()
+{
+    UnitProto::Input inp;
+    inp.label = "g7";
+    inp.boundary.interior = zoo_box("world", {5, 5, 5});
+    // centred y cylinder with a centred x-aligned bore: cyc, cxc + py, px caps
+    auto cyc = zoo_tr(zoo_cyl("cyc", 0.9, 1.6), Transformation{make_rotation(Axis::x, Turn{0.25}), {0, 0, 0}});
+    auto cxc = zoo_tr(zoo_cyl("cxc", 0.35, 2.5), Transformation{make_rotation(Axis::y, Turn{0.25}), {0, 0, 0}});
+    inp.materials.push_back(zoo_mat(make_subtraction("cyc-cxc", cyc, cxc), 1));
+    // off-centre x cylinder: cx
+    inp.materials.push_back(zoo_mat(
+        zoo_tr(zoo_cyl("cx", 0.4, 0.8), Transformation{make_rotation(Axis::y, Turn{0.25}), {2.75, -2.5, 1.25}}), 2));
+    // off-centre y cylinder: cy
+    inp.materials.push_back(zoo_mat(
+        zoo_tr(zoo_cyl("cy", 0.55, 1.1), Transformation{make_rotation(Axis::x, Turn{0.25}), {-2.5, 2.25, -1.5}}),
+        3));
+    // x-aligned and y-aligned truncated cones: kx, ky
+    inp.materials.push_back(zoo_mat(
+        zoo_tr(make_shape<oi::Cone>("kx", Real2{0.3, 1.2}, 1.0),
+               Transformation{make_rotation(Axis::y, Turn{0.25}), {-2.5, -3, 2.5}}),
+        4));
+    inp.materials.push_back(zoo_mat(
+        zoo_tr(make_shape<oi::Cone>("ky", Real2{1.0, 0.25}, 0.9),
+               Transformation{make_rotation(Axis::x, Turn{0.25}), {3, 3, -2.75}}),
+        5));
+    inp.background.fill = GeoMaterialId{0};
+    return zoo_build(UnitProto{std::move(inp)});
+}
+
 inline OrangeInput load_org_json(std::string const& path)
 {
     OrangeInput inp;
@@ -303,7 +335,8 @@ struct ZooEntry
 
 //! `extended` (default off: existing users keep their zoo) appends inputs added later:
 //!   hex-array: 51-cell unit bounded by general planes `p` at an INTERMEDIATE level (leaf
-//!   boundaries elided), 50 daughters, BIH with strongly overlapping cell boxes
+//!   boundaries elided), 50 daughters, BIH with strongly overlapping cell boxes;
+//!   g6 (pending-operand logic), g7 (x- / y-aligned cylinders and cones), ra* (unequal arrays)
 inline std::vector<ZooEntry> zoo_entries(bool with_files = true, bool extended = false)
 {
     std::vector<ZooEntry> v;
@@ -316,10 +349,12 @@ inline std::vector<ZooEntry> zoo_entries(bool with_files = true, bool extended =
     if (extended)
     {
         v.push_back({"g6", "", 6, 0});
-        // rectangular arrays with unequal cell counts (problems/geo_zoo_arrays.hh)
+        v.push_back({"g7", "", 8, 0});
+        // rectangular arrays with unequal cell counts (problems/geo_zoo_arrays.hh); variant
+        // >= 1000: grid origin (-1.5, 0.25, -2) and alternating cell widths w, 1.5 w, w, ...
         v.push_back({"ra5x2x1", "", 7, 521});
-        v.push_back({"ra2x5x1", "", 7, 251});
-        v.push_back({"ra1x2x6", "", 7, 126});
+        v.push_back({"ra2x5x1", "", 7, 1251});
+        v.push_back({"ra1x2x6", "", 7, 1126});
     }
     if (with_files)
     {
@@ -371,8 +406,11 @@ inline std::unique_ptr<GeoEnv> zoo_make(ZooEntry const& e, size_type slots = 2)
         case 5: return make_env(e.name, zoo_g5(), slots);
         case 6: return make_env(e.name, zoo_g6(), slots);
         case 7:
-            return make_env(e.name, zoo_array(e.variant / 100, (e.variant / 10) % 10, e.variant % 10),
+            return make_env(e.name,
+                            zoo_array((e.variant / 100) % 10, (e.variant / 10) % 10, e.variant % 10,
+                                      e.variant >= 1000),
                             slots);
+        case 8: return make_env(e.name, zoo_g7(), slots);
     }
     throw std::runtime_error("bad zoo entry");
 }
